@@ -30,7 +30,7 @@ MANIFEST = {
             "repair D-C16, naturally when values carry no '{' or no '$'); the unrepaired loop diverges (refuted witness). Tied to "
             "the code on every run by vm_compute correspondence against el.ReplaceAllContent, strconv2 and real App.Run starts. "
             "The callback's rendering of a value is a parameter fx of the model (false: strconv2.FormatAny; true: repair D-C17g, "
-            "a float64 in plain digits); all theorems hold for both, the variant of the tree is read off the running code each run; histories of resolve / Configure.Set / Get on one configuration store (Model/ConfigStore.v, c16_history_*, c16_set_then_*)",
+            "a float64 in plain digits); all theorems hold for both, the variant of the tree is read off the running code each run; histories of resolve / Configure.Set / Get on one configuration store (Model/ConfigStore.v, c16_history_*, c16_set_then_*); braces that belong to no placeholder",
     "design_ref": "DESIGN.md 5 C16",
     "note": "trusted: Coq kernel + vm_compute; hand-written model of el.go, the ${} callback, strconv2.ParseAny/FormatAny "
             "(fragment predicate text_in_fragment); Go driver with child processes; Python generators; the facts probe that "
